@@ -45,4 +45,7 @@ def gen_init(rng):
                         pitches=[60, 62, 64, 100, 30])
     if k < 0.55:
         return ("abs", a)
+    if k > 0.85:
+        # ill-formed on purpose: dangling note-ons, stray note-offs, re-triggers (the wrapper must keep its views in step whatever they hold)
+        return ("rel", G.gen_ill_rel(rng, n=rng.randint(2, 9), channels=(0, 1), pitches=(60, 62, 64)))
     return ("rel", G.abs_to_rel(a))
